@@ -3,16 +3,15 @@
   the RFC 8259 datatype `Rfc8259.Doc`, independently of printbufs, buffers and escape loops.
 
   * `stripColor`  : the text with the ANSI colour escapes (ESC … 'm') removed.
-  * `decodeUtf8`  : strict UTF-8 decoding (shortest form, no surrogates, ≤ U+10FFFF); a byte string
-                    is valid UTF-8 iff it decodes.
   * `docOf`       : the RFC 8259 document, *with the layout the flags prescribe*, that the tree
-                    must be rendered as; `none` exactly when the tree has no RFC 8259 rendering
-                    (NaN/Infinity, a string or key that is not UTF-8, retained number text or
-                    libc `%.17g` output that is not an RFC number).
+                    must be rendered as; `none` exactly when the tree has no such rendering
+                    (NaN/Infinity, retained number text or libc `%.17g` output that is not an RFC
+                    number).  String bytes ≥ 0x80 are `raw` items: the rendering is RFC 8259 text
+                    (which must be UTF-8) exactly when every string and key is UTF-8 (`utf8Tree`).
   * `valEq`       : the equality of the property: same shape, integers by value (whatever the C
                     type), doubles by IEEE bit pattern (retained text ignored), strings and keys by
                     bytes, members in the same order.
-  * `Doc.tokens`  : the token sequence of a document (all insignificant whitespace dropped).
+  * `docTokens`   : the token sequence of a document (all insignificant whitespace dropped).
 -/
 import JsonC.Spec.Rfc8259
 import JsonC.Model.Serialize
@@ -30,61 +29,46 @@ def strip : Bool → Bytes → Bytes
 
 def stripColor (t : Bytes) : Bytes := strip false t
 
-/-! ### UTF-8 -/
-
-def isCont (b : UInt8) : Bool := 0x80 ≤ b && b ≤ 0xBF
-
-/-- strict UTF-8 decoder: the scalar values, or `none` if the bytes are not well-formed UTF-8
-(Unicode 15 table 3-7: shortest form only, no surrogates, nothing above U+10FFFF) -/
-def decodeUtf8 : Bytes → Option (List Nat)
-  | [] => some []
-  | b0 :: r =>
-    if b0 < 0x80 then (decodeUtf8 r).map (b0.toNat :: ·)
-    else match r with
-      | [] => none
-      | b1 :: r1 =>
-        if 0xC2 ≤ b0 && b0 ≤ 0xDF then
-          if isCont b1 then (decodeUtf8 r1).map (((b0.toNat - 0xC0) * 64 + (b1.toNat - 0x80)) :: ·) else none
-        else match r1 with
-          | [] => none
-          | b2 :: r2 =>
-            if 0xE0 ≤ b0 && b0 ≤ 0xEF then
-              let cp := (b0.toNat - 0xE0) * 4096 + (b1.toNat - 0x80) * 64 + (b2.toNat - 0x80)
-              if isCont b1 && isCont b2 && 0x800 ≤ cp && !(0xD800 ≤ cp && cp < 0xE000) then
-                (decodeUtf8 r2).map (cp :: ·)
-              else none
-            else match r2 with
-              | [] => none
-              | b3 :: r3 =>
-                if 0xF0 ≤ b0 && b0 ≤ 0xF4 then
-                  let cp := (b0.toNat - 0xF0) * 262144 + (b1.toNat - 0x80) * 4096 + (b2.toNat - 0x80) * 64 + (b3.toNat - 0x80)
-                  if isCont b1 && isCont b2 && isCont b3 && 0x10000 ≤ cp && cp < 0x110000 then
-                    (decodeUtf8 r3).map (cp :: ·)
-                  else none
-                else none
-
-def validUtf8 (s : Bytes) : Bool := (decodeUtf8 s).isSome
-
 /-! ### strings -/
+
+/-- What the serializer emits for one byte of a string (any byte string, UTF-8 or not):
+the two-character escapes, `\u00XX` (lower-case hex) for the other control bytes, `\/` unless
+NOSLASHESCAPE, and **every other byte verbatim — in particular every byte ≥ 0x80**.  So the emitted
+string body is UTF-8 exactly when the string is (`ser_utf8_iff` in Props/C02). -/
+def escByte (noSlash : Bool) (c : UInt8) : Bytes :=
+  if c == 8 then [92, 98]
+  else if c == 10 then [92, 110]
+  else if c == 13 then [92, 114]
+  else if c == 9 then [92, 116]
+  else if c == 12 then [92, 102]
+  else if c == 34 then [92, 34]
+  else if c == 92 then [92, 92]
+  else if c == 47 then (if noSlash then [47] else [92, 47])
+  else if c < 32 then [92, 117, 48, 48, (if c < 16 then 48 else 49), hexLower (c.toNat % 16)]
+  else [c]
+where
+  hexLower (n : Nat) : UInt8 := if n < 10 then UInt8.ofNat (48 + n) else UInt8.ofNat (87 + n)
+
+def escBytes (noSlash : Bool) (s : Bytes) : Bytes := s.flatMap (escByte noSlash)
 
 def hexDigitOf (n : Nat) : HexDigit := ⟨n, false⟩
 
-/-- the item json_escape_str must emit for one scalar value -/
-def itemOf (noSlash : Bool) (cp : Nat) : StrItem :=
-  if cp = 8 then .esc .b
-  else if cp = 10 then .esc .n
-  else if cp = 13 then .esc .r
-  else if cp = 9 then .esc .t
-  else if cp = 12 then .esc .f
-  else if cp = 34 then .esc .quote
-  else if cp = 92 then .esc .backslash
-  else if cp = 47 then (if noSlash then .scalar 47 else .esc .slash)
-  else if cp < 32 then .u (hexDigitOf 0) (hexDigitOf 0) (hexDigitOf (cp / 16)) (hexDigitOf (cp % 16))
-  else .scalar cp
+/-- the item json_escape_str must emit for one byte of the string -/
+def itemOf (noSlash : Bool) (c : UInt8) : StrItem :=
+  if c == 8 then .esc .b
+  else if c == 10 then .esc .n
+  else if c == 13 then .esc .r
+  else if c == 9 then .esc .t
+  else if c == 12 then .esc .f
+  else if c == 34 then .esc .quote
+  else if c == 92 then .esc .backslash
+  else if c == 47 then (if noSlash then .raw 47 else .esc .slash)
+  else if c < 32 then .u (hexDigitOf 0) (hexDigitOf 0) (hexDigitOf (c.toNat / 16)) (hexDigitOf (c.toNat % 16))
+  else .raw c
 
-/-- the string items for a byte string that is valid UTF-8 -/
-def itemsOf (noSlash : Bool) (s : Bytes) : Option (List StrItem) :=
-  (decodeUtf8 s).map (·.map (itemOf noSlash))
+/-- the string items for a byte string (UTF-8 or not: RFC 8259's requirement that the text be UTF-8
+is `Rfc8259.utf8Valid` on the whole text, see `utf8Tree`) -/
+def itemsOf (noSlash : Bool) (s : Bytes) : List StrItem := s.map (itemOf noSlash)
 
 /-! ### numbers -/
 
@@ -168,7 +152,7 @@ mutual
     | .int _ v => some (.num (numOfInt v))
     | .dbl bits none => if isNaN bits || isInf bits then none else (numOfG17 (fmt bits)).map .num
     | .dbl _ (some t) => (dblTokenOfText t).map .num
-    | .str s => (itemsOf f.noSlash s).map .str
+    | .str s => some (.str (itemsOf f.noSlash s))
     | .arr xs => (elemsOf f (level + 1) xs).map fun es => .arr (emptyWs f) (setLastElem (closeWs f level) es)
     | .obj kvs => (membersOf f (level + 1) kvs).map fun ms => .obj (emptyWs f) (setLastMember (closeWs f level) ms)
   def elemsOf (f : Fl) (level : Nat) : List JVal → Option (List (Ws × Doc × Ws))
@@ -180,9 +164,9 @@ mutual
   def membersOf (f : Fl) (level : Nat) : List (Bytes × JVal) → Option (List (Ws × List StrItem × Ws × Ws × Doc × Ws))
     | [] => some []
     | (k, x) :: kvs =>
-      match itemsOf f.noSlash k, docOf f level x, membersOf f level kvs with
-      | some ki, some d, some ms => some ((leadWs f level, ki, [], colonWs f, d, []) :: ms)
-      | _, _, _ => none
+      match docOf f level x, membersOf f level kvs with
+      | some d, some ms => some ((leadWs f level, itemsOf f.noSlash k, [], colonWs f, d, []) :: ms)
+      | _, _ => none
 end
 
 /-! ### the equality of the property -/
@@ -228,27 +212,27 @@ def Token.value : Token → TokVal
   | .num n => .num n
   | .str items => .str (decodeItems items)
 
-def commaSep : List (List Token) → List Token
+def commaSep {α : Type} (sep : α) : List (List α) → List α
   | [] => []
   | [x] => x
-  | x :: xs => x ++ Token.punct 44 :: commaSep xs
+  | x :: y :: xs => x ++ sep :: commaSep sep (y :: xs)
 
 mutual
   /-- the tokens of a document, in order; whitespace is not a token -/
-  def Doc.tokens : Doc → List Token
+  def docTokens : Doc → List Token
     | .null => [.lit .null]
     | .true_ => [.lit .true_]
     | .false_ => [.lit .false_]
     | .num n => [.num n]
     | .str items => [.str items]
-    | .arr _ es => .punct 91 :: commaSep (elemsTokens es) ++ [.punct 93]
-    | .obj _ ms => .punct 123 :: commaSep (membersTokens ms) ++ [.punct 125]
+    | .arr _ es => .punct 91 :: commaSep (.punct 44) (elemsTokens es) ++ [.punct 93]
+    | .obj _ ms => .punct 123 :: commaSep (.punct 44) (membersTokens ms) ++ [.punct 125]
   def elemsTokens : List (Ws × Doc × Ws) → List (List Token)
     | [] => []
-    | (_, d, _) :: r => Doc.tokens d :: elemsTokens r
+    | (_, d, _) :: r => docTokens d :: elemsTokens r
   def membersTokens : List (Ws × List StrItem × Ws × Ws × Doc × Ws) → List (List Token)
     | [] => []
-    | (_, k, _, _, d, _) :: r => (.str k :: .punct 58 :: Doc.tokens d) :: membersTokens r
+    | (_, k, _, _, d, _) :: r => (.str k :: .punct 58 :: docTokens d) :: membersTokens r
 end
 
 /-! ### trees the property quantifies over -/
@@ -260,18 +244,18 @@ def keysNodup : List Bytes → Bool
   | k :: ks => !ks.contains k && keysNodup ks
 
 mutual
-  /-- A tree built through the API whose every part has an RFC 8259 rendering:
-  integers in the range of their C type; doubles finite, with `%.17g` output of the expected shape
-  or with retained text that is an RFC number with a fraction or an exponent; strings and keys valid UTF-8; keys NUL-free C
-  strings, each once per object. -/
+  /-- A tree built through the API inside the property's quantifier: integers in the range of their
+  C type; doubles finite, with `%.17g` output of the expected shape or with retained text that is
+  an RFC number with a fraction or an exponent; strings any bytes; keys NUL-free C strings, each
+  once per object. -/
   def treeOk : JVal → Bool
     | .null => true
     | .bool _ => true
     | .int true v => decide (INT64_MIN ≤ v) && decide (v ≤ INT64_MAX)
     | .int false v => decide (0 ≤ v) && decide (v ≤ UINT64_MAX)
     | .dbl bits none => !isNaN bits && !isInf bits && g17Shape (fmt bits)
-    | .dbl _ (some t) => (dblTokenOfText t).isSome
-    | .str s => validUtf8 s
+    | .dbl _ (some t) => (dblTokenOfText t).isSome && decide (t.length ≤ Generated.intMax)
+    | .str _ => true
     | .arr xs => treeOkList xs
     | .obj kvs => treeOkMembers kvs && keysNodup (keysOf kvs)
   def treeOkList : List JVal → Bool
@@ -279,10 +263,25 @@ mutual
     | x :: xs => treeOk x && treeOkList xs
   def treeOkMembers : List (Bytes × JVal) → Bool
     | [] => true
-    | (k, v) :: kvs => nulFree k && validUtf8 k && treeOk v && treeOkMembers kvs
+    | (k, v) :: kvs => nulFree k && treeOk v && treeOkMembers kvs
   def keysOf : List (Bytes × JVal) → List Bytes
     | [] => []
     | (k, _) :: kvs => k :: keysOf kvs
+end
+
+mutual
+  /-- every string and every key is well-formed UTF-8 -/
+  def utf8Tree : JVal → Bool
+    | .str s => utf8Valid s
+    | .arr xs => utf8List xs
+    | .obj kvs => utf8Members kvs
+    | _ => true
+  def utf8List : List JVal → Bool
+    | [] => true
+    | x :: xs => utf8Tree x && utf8List xs
+  def utf8Members : List (Bytes × JVal) → Bool
+    | [] => true
+    | (k, v) :: kvs => utf8Valid k && utf8Tree v && utf8Members kvs
 end
 
 mutual
